@@ -253,8 +253,8 @@ fn touched_slots(p: &Pred) -> [bool; 3] {
     let uses_other = match r.op {
         Op::Put => matches!(r.kind, SRC_POP | SRC_REMOVE | SRC_SWAP_REMOVE | SRC_LAZY_REF | SRC_LAZY_MUT | SRC_LAZY_HANDLE | SRC_LAZY_LAZY),
         Op::Take => matches!(r.sink, SINK_MOVE_PUSH | SINK_MOVE_INSERT | SINK_LAZY),
-        Op::Drain => r.script.iter().any(|b| matches!(b >> 1, ITEM_MOVE | ITEM_LAZY)),
-        Op::Splice => r.script.iter().any(|b| matches!(b >> 1, ITEM_MOVE | ITEM_LAZY)) || (r.via != VIA_TYPED && matches!(r.kind, REPL_LAZY | REPL_DRAIN)),
+        Op::Drain => r.script.iter().any(|b| matches!(b >> 1, ITEM_MOVE | ITEM_LAZY | ITEM_MOVE_INSERT)),
+        Op::Splice => r.script.iter().any(|b| matches!(b >> 1, ITEM_MOVE | ITEM_LAZY | ITEM_MOVE_INSERT)) || (r.via != VIA_TYPED && matches!(r.kind, REPL_LAZY | REPL_DRAIN)),
         Op::CloneVec | Op::CloneEmpty => r.slot < 2,
         Op::CloneEmptyIn => true,
         Op::Swap => matches!(r.kind, SWP_ELEMENT | SWP_HANDLE),
@@ -385,7 +385,7 @@ impl<'a> Ctx<'a> {
             }
             let bytes = sn.cap.saturating_mul(size);
             match self.info.be_of(s).kind {
-                BeKind::Sim => match env::lookup(sn.storage_addr) {
+                BeKind::Sim | BeKind::SimFixed => match env::lookup(sn.storage_addr) {
                     Some(b) => {
                         if b.len < bytes {
                             return Err(self.viol(Class::MemEnv, step, p, faulted, format!("slot {}: capacity {} x {} B exceeds the storage block of {} B", s, sn.cap, size, b.len)));
